@@ -108,4 +108,11 @@ PROPS["C09"]["correspondence"] = "storage.go/storage_provider.go/storage_segment
 PROPS["C10"] = dict(PROPS["C08"], level_text="Crash images are taken by a verif handler at every file-operation boundary of flushMemtable / writeIndexToSegment / compactSegments / deleteSegment (create x4, close, before/after registration, before drop, unregister, each file removal) plus synthetic byte-prefixes of the file being written in close order; each image is reopened by the real code with fresh templates and searched, and compared with the faithful model (segment files complete / truncated / payload-complete-truncated / empty / missing) and with the specification (everything covered by a completed Flush is found, nothing never-added or from an incomplete segment appears, reopening and searching never fail). Theorems: a segment with a broken/missing/empty hybrid or component file is ignored without touching the shared states and is never cached; identifiers are not reused; the half-load through a truncated LATER component is refuted with a witness.")
 PROPS["C10"]["correspondence"] = "storage.go flush/compaction + storage_segment.go getIndex + storage_provider.go ~ Model.Store (load_segment, open_store)"
 
+PROPS["C17"] = {
+    "level_text": "Theorem over EVERY interleaving of O_EXCL lock attempts, directory scans (succeeding or failing), close-flag test-and-sets, lock releases and uses by any number of handles (goroutines or processes): the LOCK file exists exactly while one handle owns the directory, never two owners; busy open has no effect, a failed scan leaves no lock, Close releases, a second Close errors without effect, use after Close fails, reopen after Close succeeds. The protocol model is tied to storage_provider.go/storage.go by sequences and 2..8-goroutine races of Open/Close/use/failed Open and opens from a second process, with return codes and LOCK-file existence as observables.",
+    "level_note": "Trusted: Coq kernel, extraction, harness; O_CREATE|O_EXCL is atomic (file system); a failing directory scan cannot be provoked as root in this sandbox, so that branch (release on scan failure) is covered by the theorem and by code reading only; the failed open exercised on the implementation is an unusable base path.",
+    "correspondence": "storage_provider.go acquireLock/releaseLock + storage.go Open/Close ~ Model.Lock",
+    "nontrivial_min_tokens": 12,
+}
+
 NOT_YET = {}
